@@ -34,7 +34,8 @@
      counts the calls; the counter belongs to the environment, not to the process).
    - LogOwnProposal (FALSE = the code): repaired design for DESIGN.md H6 — a freshly obtained
      value is logged (action "wal_own") before the proposal is broadcast, and a machine primed
-     with such entries (s.memo) reuses the logged value instead of asking the application.  *)
+     with such entries (s.memo, filled by Driver.tla's Recover; always empty in the code as it
+     is) reuses the logged value instead of asking the application.  *)
 EXTENDS Integers, Sequences, FiniteSets, TLC
 
 CONSTANTS
@@ -119,7 +120,7 @@ SendPrecommit(s, id) == [AddVote(s, "precommit", s.h, s.round, s.me, id) EXCEPT 
 StartRound(s, r) ==
   LET s1 == [s EXCEPT !.round = r, !.step = PROPOSE, !.tpv = FALSE, !.tpc = FALSE, !.flag = FALSE] IN
   IF ProposerOf(s.h, r) = s.me
-  THEN LET hasMemo == LogOwnProposal /\ \E m \in s1.memo : m.h = s1.h /\ m.r = r
+  THEN LET hasMemo == \E m \in s1.memo : m.h = s1.h /\ m.r = r
            fresh == s1.vv = Nil /\ ~hasMemo
            v == IF s1.vv # Nil THEN s1.vv
                 ELSE IF hasMemo THEN (CHOOSE m \in s1.memo : m.h = s1.h /\ m.r = r).v
@@ -171,9 +172,8 @@ ProcessOnce(s, rr) ==
     [] OTHER -> <<s, <<>>, FALSE>>
 
 RECURSIVE Loop(_, _, _)
-Loop(s, rr, acts) ==
-  LET r == ProcessOnce(s, rr) IN
-  IF r[3] THEN Loop(r[1], rr, acts \o r[2]) ELSE <<r[1], acts \o r[2]>>
+LoopOn(r, rr, acts) == IF r[3] THEN Loop(r[1], rr, acts \o r[2]) ELSE <<r[1], acts \o r[2]>>
+Loop(s, rr, acts) == LoopOn(ProcessOnce(s, rr), rr, acts)
 
 -----------------------------------------------------------------------------
 \* inputs
